@@ -312,9 +312,31 @@ def main():
         plan.append(("open-cluster:shape-descriptors[d=3]", obs_gyration, o3, gname, g, None))
         plan.append(("open-cluster:shape-descriptors[d=2]", obs_gyration, o2, gname, g, None))
     plan.append(("open-cluster:participation-ratio", obs_pr, o3, "rotation", g_rotate, None))
+    # (observable, group) pairs that contracts/C07.py now proves by relational execution of the real AST (units of C07_units.py and the
+    # g(r) / neighbour-writer units): not part of the bounded stand-in any more (set C07_BOUNDED_ALL=1 to run them all the same)
+    PROVED = {
+        "g(r)": {"translation", "lattice-shift", "axis-permutation"},
+        "S(q)": {"translation", "lattice-shift", "relabelling"},
+        "N-nearest-neighbour-sets": {"translation", "lattice-shift", "axis-permutation"},
+        "Hessian-spectrum": {"translation", "lattice-shift"},
+        "relaxation-functions": {"translation", "lattice-shift", "axis-permutation"},
+        "tetrahedral-order": {"translation", "lattice-shift"},
+        "pair-entropy-S2": {"translation", "lattice-shift", "axis-permutation"},
+        "|psi_6|": {"translation", "lattice-shift", "relabelling"},
+        "open-cluster:tetrahedral-order": {"translation"},
+        "open-cluster:|psi_6|": {"translation", "relabelling"},
+        "open-cluster:shape-descriptors": {"translation"},
+    }
+
+    def proved(name, gname):
+        if os.environ.get("C07_BOUNDED_ALL"):
+            return False
+        return gname in PROVED.get(name.split("[")[0], ())
     try:
         for name, obs, c, gname, g, pre in plan:
             if only and only not in name and only not in gname:
+                continue
+            if not only and proved(name, gname):
                 continue
             if gname == "dilation":
                 # g(r) values unchanged when coordinates, box and bin width are dilated together
